@@ -409,6 +409,7 @@ def run_check(prop, tier, seed, plan):
 
     if cov is not None and not (missing and not mine):
         cov.setdefault("jobs", len(jobs))
+        cov.setdefault("slowest_jobs", ["%.0fs %s" % (r.wall, r.job.label[:90]) for r in sorted(results, key=lambda r: -r.wall)[:3]])
         cov.setdefault("job_modes", sorted(set(j.mode for j in jobs)))
         if advisory:
             cov["advisory"] = advisory[:10]
